@@ -110,7 +110,6 @@ def classify (cfg : Cfg) (p : Program) (_edb : DB) (_want : String) : String :=
   else if queryRel p != answeredRel p then "last_rule_head_not_last_head"
   else if p.any droppedEquality then "equality_on_computed_variable"
   else if lastHeadMultiClauseWithSip cfg p then "last_head_multi_clause_with_sip"
-  else if repeatedVarUnderJoinPlanning cfg p then "repeated_var_in_scan_under_join_planning"
   else "unclassified"
 
 /-- Spec verdict on the implementation's output. -/
